@@ -328,3 +328,38 @@ def volume_cases(kinds, tier='quick'):
         add('data', f'fresh-arrays-{n}', f'{V} bad = 0;\n{F} ({V} i = 0; i < {n * 5}; i = i + 1) {{ {V} a = [i, [i + 1, 0]]; {V} b = [0, [0, 0]]; b[1][1] = i; {I} (a[1][1] != 0 || a[1][0] != i + 1 || {LEN}(a) != 2) {{ bad = bad + 1; }} }}\n{P} bad;\n', ['0'])
         add('data', f'string-grown-{n}', f'{V} s = "";\n{F} ({V} i = 0; i < {n}; i = i + 1) {{ s = s + "ab"; }}\n{P} s == s + "";\n{P} s == s + "a";\n', ['true', 'false'])
     return out
+
+def shrink_case(c, fuel=8000, timeout_ms=5000, budget_s=150):
+    """delta-debug a model-vs-implementation disagreement: drop pieces of the source (lines first, then blank-separated
+    words) while implementation and model still differ; the candidates of one round run in parallel"""
+    if not isinstance(c.src, str) or len(c.src) < 400 or c.model is None:
+        return c
+    mode = c.req.split('\t', 1)[0]
+    stdin = unhx(c.req.split('\t')[2]) if c.req.count('\t') >= 2 else b''
+    t_end = time.time() + budget_s
+    def still_fails(srcs):
+        cs = [run_case(mode, s_, stdin, keys=c.keys, label=c.label, group=c.group, note=c.note) for s_ in srcs]
+        execute(cs, fuel=fuel, timeout_ms=timeout_ms)
+        bad = {id(x) for x in disagreements(cs)}
+        return [x if id(x) in bad else None for x in cs]
+    best = c
+    for sep in ('\n', ' '):
+        units = best.src.split(sep)
+        n = 2
+        while len(units) >= 2 and time.time() < t_end:
+            size = max(1, (len(units) + n - 1) // n)
+            chunks = [units[i:i + size] for i in range(0, len(units), size)]
+            cands = [sep.join(ch) for ch in chunks] if n == 2 else []
+            cands += [sep.join(u for j, ch in enumerate(chunks) if j != i for u in ch) for i in range(len(chunks))] if len(chunks) > 1 else []
+            cands = cands[:24]
+            res = still_fails(cands)
+            hit = next((x for x in res if x is not None), None)
+            if hit is not None:
+                best = hit
+                units = best.src.split(sep)
+                n = max(2, n - 1)
+            elif size == 1:
+                break
+            else:
+                n = min(len(units), n * 2)
+    return best
